@@ -220,7 +220,7 @@ def programs(tier, seed):
     c5 = [i for i in c05_instances(tier, seed) if i[0] == "immediate"]
     rng.shuffle(c5)
     out += [("binders", i[2]) for i in c5[:60 if tier == "quick" else 400]]
-    out += [("real", p) for p in gen.einsum_progs()] + [("real", p) for p in gen.constant_progs()] + [("real", p) for p in gen.nondistributive_progs()] + [("log", p) for p in gen.constant_progs("log")]
+    out += [("real", p) for p in gen.einsum_progs()] + [("real", p) for p in gen.constant_progs()] + [("real", p) for p in gen.nondistributive_progs()] + [("real", p) for p in gen.matmul_progs()] + [("real", p) for p in gen.stack_hetero_progs()] + [("log", p) for p in gen.constant_progs("log")]
     return out
 
 
